@@ -16,8 +16,10 @@
 (*   runres(code) shutres(code) - what edzed.run() / a later shutdown() did (-1: returned)*)
 (*   after(ready, restart, addblock, tasks, timers)                                       *)
 EXTENDS TraceLib
-VARIABLES simset, err, supf, started, failedstart, stopcnt, sast, sabeg, stopt0, phase, doomed, sdrun, sdwant, now, tid, l
-vars == <<simset, err, supf, started, failedstart, stopcnt, sast, sabeg, stopt0, phase, doomed, sdrun, sdwant, now>>
+VARIABLES simset, err, supf, started, failedstart, stopcnt, sast, sabeg, stopt0, phase, doomed, sdrun, sdwant, now,
+          sigt,          \* time of a SIGTERM that was just delivered (NONE otherwise): the abort follows at once
+          tid, l
+vars == <<simset, err, supf, started, failedstart, stopcnt, sast, sabeg, stopt0, phase, doomed, sdrun, sdwant, now, sigt>>
 H(t) == Traces[t].hdr
 Ev(t) == Traces[t].ev
 NONE == 0 - 1
@@ -27,7 +29,7 @@ TraceInit == /\ tid \in 1..NTraces /\ l = 1
              /\ stopcnt = [b \in DOMAIN Traces[tid].hdr.blocks |-> 0]
              /\ sast = [b \in DOMAIN Traces[tid].hdr.blocks |-> "no"]
              /\ sabeg = [b \in DOMAIN Traces[tid].hdr.blocks |-> 0]
-             /\ stopt0 = NONE /\ phase = "pre" /\ doomed = FALSE /\ sdrun = {} /\ sdwant = {} /\ now = 0
+             /\ stopt0 = NONE /\ phase = "pre" /\ doomed = FALSE /\ sdrun = {} /\ sdwant = {} /\ now = 0 /\ sigt = NONE
 First(e) == IF err = NONE THEN e ELSE err
 Ready == simset /\ err = NONE /\ phase # "finished"
 ExtPrefix == <<95, 101, 120, 116, 95>>                      \* "_ext_"
@@ -137,7 +139,11 @@ After(e) == /\ phase = "finished"
 Step == /\ l <= Len(Ev(tid))
         /\ LET e == Ev(tid)[l] IN
              /\ e.t >= now /\ now' = e.t
+             \* a SIGTERM delivered while the loop was idle: the very next thing is the abort, at once
+             /\ sigt' = (IF e.ev = "sigsent" THEN e.t ELSE NONE)
+             /\ (sigt # NONE => (e.ev = "abort" /\ e.t = sigt))
              /\ \/ e.ev = "begin" /\ Begin(e)
+                \/ e.ev = "sigsent" /\ Same
                 \/ e.ev = "start" /\ Start(e)
                 \/ e.ev = "fault" /\ Fault(e)
                 \/ e.ev = "inited" /\ Inited(e)
